@@ -70,6 +70,7 @@ fn by_ref<'a, D: Distribution<&'a El> + ChoicesDistribution>(d: Result<D, impl S
 macro_rules! with_array {
     ($src:expr, $arr:ident => $body:expr) => {{
         match $src.len() {
+            #[cfg(feature = "optional_flavours")]
             0 => { let $arr: [El; 0] = []; $body }
             1 => { let $arr: [El; 1] = [$src[0].clone()]; $body }
             2 => { let $arr: [El; 2] = [$src[0].clone(), $src[1].clone()]; $body }
@@ -269,10 +270,12 @@ pub fn law(args: &[String]) -> i32 {
     let n = arg_u64(args, "--n", 60_000) as usize;
     let seed = arg_u64(args, "--seed", 0);
     let mut out = Out::create(arg_req(args, "--out"));
-    for (k, len) in [2usize, 3, 7].iter().enumerate() {
+    for (k, len) in [2usize, 3, 7, 100, 192, 255, 300].iter().enumerate() {
         let src: Vec<El> = (1..=*len).map(|t| El { v: (t % 2) as i64, tag: t }).collect();
         for (f, fl) in FLAVOURS.iter().enumerate() {
             let mut rng = run_rng(seed, 0x1A8, (k * 100 + f) as u64);
+            // many members: more samples, so that every member is expected a few hundred times
+            let n = if *len > 7 { n * 4 } else { n };
             let Some((_, samples)) = probe(fl, &src, n, &mut rng) else { continue };
             let mut counts = vec![0u64; *len];
             let mut other = 0u64;
@@ -280,6 +283,42 @@ pub fn law(args: &[String]) -> i32 {
                 if idx >= 1 && idx <= *len { counts[idx - 1] += 1 } else { other += 1 }
             }
             out.line(&json!({"flavour": fl, "len": len, "n": n, "counts": counts, "other": other}));
+        }
+    }
+    out.finish();
+    0
+}
+
+/// impl -> spec: every size 0..=600 plus large ones, for every constructor that takes a size
+pub fn sizes(args: &[String]) -> i32 {
+    let seed = arg_u64(args, "--seed", 0);
+    let mut out = Out::create(arg_req(args, "--out"));
+    let mut rng = run_rng(seed, 0xC18, 77);
+    let all: Vec<usize> = (0..=600).chain([1023, 1024, 1025, 4032, 4033, 4096, 10_000, 65_537]).collect();
+    for size in all {
+        let mut rows: Vec<(&str, Result<(usize, i64), String>)> = Vec::new();
+        rows.push(("bitstring_random", guarded(|| (Bitstring::random(size, &mut rng).bits.len(), -1))));
+        rows.push(("bitstring_random_with_probability", guarded(|| (Bitstring::random_with_probability(size, 0.25, &mut rng).bits.len(), -1))));
+        rows.push(("bitstring_collect", guarded(|| {
+            let c = Counter(Cell::new(0));
+            let b: Bitstring = c.to_collection_generator(size).sample(&mut rng);
+            (b.bits.len(), c.0.get())
+        })));
+        rows.push(("vec_collect", guarded(|| {
+            let c = Counter(Cell::new(0));
+            let v: Vec<i64> = c.to_collection_generator(size).sample(&mut rng);
+            (v.len(), c.0.get())
+        })));
+        rows.push(("plushy_collect", guarded(|| {
+            let c = Counter(Cell::new(0));
+            let p: Plushy = c.to_collection_generator(size).sample(&mut rng);
+            (p.get_genes().len(), c.0.get())
+        })));
+        for (kind, r) in rows {
+            match r {
+                Ok((len, drawn)) => out.line(&json!({"ev": "sized", "run": size, "kind": kind, "size": size, "len": len, "drawn": drawn})),
+                Err(m) => out.line(&json!({"ev": "sized", "run": size, "kind": kind, "size": size, "len": -1, "drawn": -1, "panic": m})),
+            }
         }
     }
     out.finish();
